@@ -913,3 +913,63 @@ def rule_number_operator_power(rep: Report, repo: Repo):
            and not (k[0] in IDEMPOTENT and v == ["generic"])}  # leaving an idempotent power to sympy is correct, only less simplified
     rep.check(not bad, R, "number_ordered_form::NumberOperator._eval_power collapses N**k to N only for fermion and spin modes (integer k != 0)",
               f"(operator type, exponent integer, exponent zero) -> result; wrong: {bad}" if bad else f"{len(table)} cases", loc)
+
+
+
+# ---------------------------------------------------------------------------
+# one ordering of the operators everywhere
+# ---------------------------------------------------------------------------
+
+
+def rule_operator_sort_consistency(rep: Report, repo: Repo):
+    """The position of an operator in a NumberOrderedForm decides the signs of fermionic products and the meaning of every power
+    tuple.  The forms built by from_expr / find_operators and the forms merged by _combine_operators (checked by _validate_operators)
+    agree only if every site sorts operators by the SAME key.  All sort keys over operators are collected (lambda or named function,
+    in number_ordered_form.py and block_diagonalization.py) and compared after alpha-renaming."""
+    from .resolve import resolved
+    from .sem import Scope, expression_body
+    R = "E10"
+    keys = []
+    for mod in ("number_ordered_form", "block_diagonalization"):
+        tree = repo.trees[mod]
+        for c in ast.walk(tree):
+            if not isinstance(c, ast.Call):
+                continue
+            is_sort = call_name(c) == "sorted" or (isinstance(c.func, ast.Attribute) and c.func.attr == "sort")
+            kw = {k.arg: k.value for k in c.keywords}
+            if not is_sort or "key" not in kw:
+                continue
+            k = kw["key"]
+            fn = None
+            if isinstance(k, ast.Lambda) and len(k.args.args) == 1:
+                par, body = k.args.args[0].arg, k.body
+            else:
+                if isinstance(k, ast.Name):
+                    enc = Scope(tree, c)
+                    fn = enc.get(k.id)
+                if fn is None or len(fn.args.args) != 1:
+                    continue
+                body = expression_body(fn)
+                if body is None:
+                    # a key written as statements: straight-line evaluation to one expression
+                    from .straight import run as _run
+                    try:
+                        body = _run(fn, lambda n_: None, R)
+                    except AnalysisError:
+                        raise AnalysisError(R, f"{mod}: sort key `{k.id}` is not a single expression")
+                par = fn.args.args[0].arg
+            txt = norm(resolved(body, {par: ast.Name(id="_OP_", ctx=ast.Load())}))
+            if "generator_types" not in txt and not (mod == "number_ordered_form" and "_OP_" in txt and "name" in txt):
+                continue  # not a sort of operators (in block_diagonalization.py other things are sorted too, e.g. symbols by name)
+            keys.append((mod, c, txt))
+    if len(keys) < 3:
+        raise AnalysisError(R, f"only {len(keys)} sorts of operators found (find_operators, _validate_operators, _combine_operators, block_diagonalize expected)")
+    distinct = sorted({t for _m, _c, t in keys})
+    if len(distinct) == 1:
+        rep.ok(R, "number_ordered_form every sort of operators uses the same key", f"{len(keys)} sites: {distinct[0][:80]}", repo.loc(keys[0][0], keys[0][1]))
+    else:
+        odd = min(distinct, key=lambda t: sum(1 for _m, _c, t2 in keys if t2 == t))
+        site = next((m_, c_) for m_, c_, t in keys if t == odd)
+        rep.fail(R, "number_ordered_form sorts of operators use different keys",
+                 f"{[(t[:70], sum(1 for _m, _c, t2 in keys if t2 == t)) for t in distinct]}: forms built at one site and merged at another disagree "
+                 "about the order of the operators (fermionic signs, meaning of the power tuples)", repo.loc(*site))
